@@ -41,6 +41,36 @@ Proof.
   apply detm_ext, orth_def, H.
 Qed.
 
+(* Q^T Q = I  ->  Q Q^T = I  for 3x3 matrices (same proof as Proofs_decomp2.orth_tr, repeated here so that C11 does
+   not depend on the C12 development): || Q Q^T - I ||_F^2 = || Q^T Q ||_F^2 - 2 tr(Q^T Q) + 3 = 0 *)
+Lemma orth_transpose (Q : M3) : orth Q -> orth (tr3 Q).
+Proof.
+  intros H.
+  pose proof (H 0 0 ltac:(lia) ltac:(lia))%nat as H00. pose proof (H 0 1 ltac:(lia) ltac:(lia))%nat as H01.
+  pose proof (H 0 2 ltac:(lia) ltac:(lia))%nat as H02. pose proof (H 1 1 ltac:(lia) ltac:(lia))%nat as H11.
+  pose proof (H 1 2 ltac:(lia) ltac:(lia))%nat as H12. pose proof (H 2 2 ltac:(lia) ltac:(lia))%nat as H22.
+  cbn [Nat.eqb] in *. unfold sum3 in *.
+  (* || Q Q^T - I ||_F^2 = || Q^T Q ||_F^2 - 2 tr(Q^T Q) + 3 = 3 - 6 + 3 = 0 *)
+  assert (S: ((Q 0%nat 0%nat * Q 0%nat 0%nat + Q 0%nat 1%nat * Q 0%nat 1%nat + Q 0%nat 2%nat * Q 0%nat 2%nat) - 1) * ((Q 0%nat 0%nat * Q 0%nat 0%nat + Q 0%nat 1%nat * Q 0%nat 1%nat + Q 0%nat 2%nat * Q 0%nat 2%nat) - 1) + (Q 0%nat 0%nat * Q 1%nat 0%nat + Q 0%nat 1%nat * Q 1%nat 1%nat + Q 0%nat 2%nat * Q 1%nat 2%nat) * (Q 0%nat 0%nat * Q 1%nat 0%nat + Q 0%nat 1%nat * Q 1%nat 1%nat + Q 0%nat 2%nat * Q 1%nat 2%nat) + (Q 0%nat 0%nat * Q 2%nat 0%nat + Q 0%nat 1%nat * Q 2%nat 1%nat + Q 0%nat 2%nat * Q 2%nat 2%nat) * (Q 0%nat 0%nat * Q 2%nat 0%nat + Q 0%nat 1%nat * Q 2%nat 1%nat + Q 0%nat 2%nat * Q 2%nat 2%nat) + (Q 1%nat 0%nat * Q 0%nat 0%nat + Q 1%nat 1%nat * Q 0%nat 1%nat + Q 1%nat 2%nat * Q 0%nat 2%nat) * (Q 1%nat 0%nat * Q 0%nat 0%nat + Q 1%nat 1%nat * Q 0%nat 1%nat + Q 1%nat 2%nat * Q 0%nat 2%nat) + ((Q 1%nat 0%nat * Q 1%nat 0%nat + Q 1%nat 1%nat * Q 1%nat 1%nat + Q 1%nat 2%nat * Q 1%nat 2%nat) - 1) * ((Q 1%nat 0%nat * Q 1%nat 0%nat + Q 1%nat 1%nat * Q 1%nat 1%nat + Q 1%nat 2%nat * Q 1%nat 2%nat) - 1) + (Q 1%nat 0%nat * Q 2%nat 0%nat + Q 1%nat 1%nat * Q 2%nat 1%nat + Q 1%nat 2%nat * Q 2%nat 2%nat) * (Q 1%nat 0%nat * Q 2%nat 0%nat + Q 1%nat 1%nat * Q 2%nat 1%nat + Q 1%nat 2%nat * Q 2%nat 2%nat) + (Q 2%nat 0%nat * Q 0%nat 0%nat + Q 2%nat 1%nat * Q 0%nat 1%nat + Q 2%nat 2%nat * Q 0%nat 2%nat) * (Q 2%nat 0%nat * Q 0%nat 0%nat + Q 2%nat 1%nat * Q 0%nat 1%nat + Q 2%nat 2%nat * Q 0%nat 2%nat) + (Q 2%nat 0%nat * Q 1%nat 0%nat + Q 2%nat 1%nat * Q 1%nat 1%nat + Q 2%nat 2%nat * Q 1%nat 2%nat) * (Q 2%nat 0%nat * Q 1%nat 0%nat + Q 2%nat 1%nat * Q 1%nat 1%nat + Q 2%nat 2%nat * Q 1%nat 2%nat) + ((Q 2%nat 0%nat * Q 2%nat 0%nat + Q 2%nat 1%nat * Q 2%nat 1%nat + Q 2%nat 2%nat * Q 2%nat 2%nat) - 1) * ((Q 2%nat 0%nat * Q 2%nat 0%nat + Q 2%nat 1%nat * Q 2%nat 1%nat + Q 2%nat 2%nat * Q 2%nat 2%nat) - 1) = 0).
+  { transitivity ((Q 0%nat 0%nat * Q 0%nat 0%nat + Q 1%nat 0%nat * Q 1%nat 0%nat + Q 2%nat 0%nat * Q 2%nat 0%nat) * (Q 0%nat 0%nat * Q 0%nat 0%nat + Q 1%nat 0%nat * Q 1%nat 0%nat + Q 2%nat 0%nat * Q 2%nat 0%nat) + (Q 0%nat 1%nat * Q 0%nat 1%nat + Q 1%nat 1%nat * Q 1%nat 1%nat + Q 2%nat 1%nat * Q 2%nat 1%nat) * (Q 0%nat 1%nat * Q 0%nat 1%nat + Q 1%nat 1%nat * Q 1%nat 1%nat + Q 2%nat 1%nat * Q 2%nat 1%nat) + (Q 0%nat 2%nat * Q 0%nat 2%nat + Q 1%nat 2%nat * Q 1%nat 2%nat + Q 2%nat 2%nat * Q 2%nat 2%nat) * (Q 0%nat 2%nat * Q 0%nat 2%nat + Q 1%nat 2%nat * Q 1%nat 2%nat + Q 2%nat 2%nat * Q 2%nat 2%nat) + 2 * ((Q 0%nat 0%nat * Q 0%nat 1%nat + Q 1%nat 0%nat * Q 1%nat 1%nat + Q 2%nat 0%nat * Q 2%nat 1%nat) * (Q 0%nat 0%nat * Q 0%nat 1%nat + Q 1%nat 0%nat * Q 1%nat 1%nat + Q 2%nat 0%nat * Q 2%nat 1%nat)) + 2 * ((Q 0%nat 0%nat * Q 0%nat 2%nat + Q 1%nat 0%nat * Q 1%nat 2%nat + Q 2%nat 0%nat * Q 2%nat 2%nat) * (Q 0%nat 0%nat * Q 0%nat 2%nat + Q 1%nat 0%nat * Q 1%nat 2%nat + Q 2%nat 0%nat * Q 2%nat 2%nat)) + 2 * ((Q 0%nat 1%nat * Q 0%nat 2%nat + Q 1%nat 1%nat * Q 1%nat 2%nat + Q 2%nat 1%nat * Q 2%nat 2%nat) * (Q 0%nat 1%nat * Q 0%nat 2%nat + Q 1%nat 1%nat * Q 1%nat 2%nat + Q 2%nat 1%nat * Q 2%nat 2%nat)) - 2 * ((Q 0%nat 0%nat * Q 0%nat 0%nat + Q 1%nat 0%nat * Q 1%nat 0%nat + Q 2%nat 0%nat * Q 2%nat 0%nat) + (Q 0%nat 1%nat * Q 0%nat 1%nat + Q 1%nat 1%nat * Q 1%nat 1%nat + Q 2%nat 1%nat * Q 2%nat 1%nat) + (Q 0%nat 2%nat * Q 0%nat 2%nat + Q 1%nat 2%nat * Q 1%nat 2%nat + Q 2%nat 2%nat * Q 2%nat 2%nat)) + 3); [ring|].
+    rewrite H00, H01, H02, H11, H12, H22. ring. }
+  pose proof (Rle_0_sqr ((Q 0%nat 0%nat * Q 0%nat 0%nat + Q 0%nat 1%nat * Q 0%nat 1%nat + Q 0%nat 2%nat * Q 0%nat 2%nat) - 1)) as N00.
+  pose proof (Rle_0_sqr (Q 0%nat 0%nat * Q 1%nat 0%nat + Q 0%nat 1%nat * Q 1%nat 1%nat + Q 0%nat 2%nat * Q 1%nat 2%nat)) as N01.
+  pose proof (Rle_0_sqr (Q 0%nat 0%nat * Q 2%nat 0%nat + Q 0%nat 1%nat * Q 2%nat 1%nat + Q 0%nat 2%nat * Q 2%nat 2%nat)) as N02.
+  pose proof (Rle_0_sqr (Q 1%nat 0%nat * Q 0%nat 0%nat + Q 1%nat 1%nat * Q 0%nat 1%nat + Q 1%nat 2%nat * Q 0%nat 2%nat)) as N10.
+  pose proof (Rle_0_sqr ((Q 1%nat 0%nat * Q 1%nat 0%nat + Q 1%nat 1%nat * Q 1%nat 1%nat + Q 1%nat 2%nat * Q 1%nat 2%nat) - 1)) as N11.
+  pose proof (Rle_0_sqr (Q 1%nat 0%nat * Q 2%nat 0%nat + Q 1%nat 1%nat * Q 2%nat 1%nat + Q 1%nat 2%nat * Q 2%nat 2%nat)) as N12.
+  pose proof (Rle_0_sqr (Q 2%nat 0%nat * Q 0%nat 0%nat + Q 2%nat 1%nat * Q 0%nat 1%nat + Q 2%nat 2%nat * Q 0%nat 2%nat)) as N20.
+  pose proof (Rle_0_sqr (Q 2%nat 0%nat * Q 1%nat 0%nat + Q 2%nat 1%nat * Q 1%nat 1%nat + Q 2%nat 2%nat * Q 1%nat 2%nat)) as N21.
+  pose proof (Rle_0_sqr ((Q 2%nat 0%nat * Q 2%nat 0%nat + Q 2%nat 1%nat * Q 2%nat 1%nat + Q 2%nat 2%nat * Q 2%nat 2%nat) - 1)) as N22.
+  unfold Rsqr in *.
+  assert (Z: forall x : R, x * x = 0 -> x = 0) by (intros x Hx; apply Rsqr_0_uniq; exact Hx).
+  intros a e Ha He. unfold tr3, sum3.
+  destruct a as [|[|[|a]]]; [ | | | exfalso; lia ];
+  (destruct e as [|[|[|e]]]; [ | | | exfalso; lia ]); cbn [Nat.eqb];
+  first [ apply Z; lra | apply Rminus_diag_uniq, Z; lra ].
+Qed.
+
 Section PolarOracle2.
   Variables M U S Vh : arr NumR.
   Hypothesis HU1 : orth (mat3 U).
@@ -200,7 +230,7 @@ Section PolarOracle2.
   Theorem polar_right_generated :
     match @k_polar_decompose_right NumR M U S Vh with
     | Ok (R, Ur) =>
-        eq2b (mm (mat3 R) (mat3 Ur)) (mat3 M) /\ orth (mat3 R) /\
+        eq2b (mm (mat3 R) (mat3 Ur)) (mat3 M) /\ (orth (mat3 R) /\ orth (tr3 (mat3 R))) /\
         sym3 (mat3 Ur) /\ forall x, 0 <= quad (mat3 Ur) x
     | Err e => e = ValueError /\ @det3 NumR M = 0
     end.
@@ -210,11 +240,11 @@ Section PolarOracle2.
       + rewrite (polar_right_singular_raises H0). split; [reflexivity|exact H0].
       + destruct (proj2 polar_right_ok_iff Hn) as [Rr E]. rewrite E.
         destruct (polar_right_product M U S Vh HU1 HV2 HM Rr Um E) as (_ & Hp & Ho).
-        split; [exact Hp|]. split; [exact Ho|]. split.
+        split; [exact Hp|]. split; [exact (conj Ho (orth_transpose _ Ho))|]. split.
         * apply polar_right_stretch_symmetric.
         * intros x. apply polar_right_stretch_psd, HS.
     - pose proof polar_right_repaired_spec as Hr. unfold polar_right_repaired in Hr |- *.
-      split; [exact (proj2 Hr)|]. split; [exact (proj1 (proj1 Hr))|]. split.
+      split; [exact (proj2 Hr)|]. split; [exact (proj1 Hr)|]. split.
       + apply polar_right_stretch_symmetric.
       + intros x. apply polar_right_stretch_psd, HS.
   Qed.
